@@ -103,8 +103,8 @@ M("C04-R6-linecount-cr", "C04", [(U, "bytecount::count(buf, b'\\n')", "bytecount
 M("C04-R6-shebang-offset", "C04", [(U, "buf[0] == 0x23 && buf[1] == 0x21", "buf[0] == 0x23 || buf[1] == 0x21")], ["content_is_shebang"])
 M("C04-R6-ext-case", "C04", [(U, "let s = file_name.to_ascii_lowercase();\n\n    for ext in extensions {", "let s = file_name.to_string();\n\n    for ext in extensions {")], ["content_has_extension"])
 M("C04-R6-zip-ear", "C04", [(CFG, 'vec_of_strings![".zip", ".jar", ".war", ".ear"]', 'vec_of_strings![".zip", ".jar", ".war"]')], ["config_is_zip_archive"])
-M("C04-R7-cap-bpf-bit", "C04", [(CAPS, "check_cap!(cap_bpf, 39 - 32, permitted, inherited, effective, result);", "check_cap!(cap_bpf, 38 - 32, permitted, inherited, effective, result);")], ["capability_cap_bpf"])
-M("C04-R7-cap-word", "C04", [(CAPS, "let permitted = u32::from_le_bytes(caps[12..16].try_into().unwrap());", "let permitted = u32::from_le_bytes(caps[4..8].try_into().unwrap());")], ["capability_cap_mac"])
+M("C04-R7-cap-bpf-bit", "C04", [(CAPS, "check_cap!(cap_bpf, 39 - 32, permitted, inherited, effective, result);", "check_cap!(cap_bpf, 38 - 32, permitted, inherited, effective, result);")], ["capability_"])
+M("C04-R7-cap-word", "C04", [(CAPS, "let permitted = u32::from_le_bytes(caps[12..16].try_into().unwrap());", "let permitted = u32::from_le_bytes(caps[4..8].try_into().unwrap());")], ["capability_"])
 M("C04-V-perm-nonzero", "C04", [(MO, "mode & S_IRUSR == S_IRUSR", "mode & S_IRUSR != 0")], kind="variant")
 
 # ---------------------------------------------------------------- C05 / C06
